@@ -106,15 +106,35 @@ func (s *Script) risk() string {
 // generator
 // ---------------------------------------------------------------------------
 
+// rapid's integer generators are deliberately biased towards small values (IntRange(0,99) lands in 0..9 four
+// times out of ten), which is unwanted for probabilities and for picking event kinds; fair coins are fair.
+// uni draws a uniform value in [0,n) from ten fair bits; it shrinks towards 0.
+func uni(t *rapid.T, label string, n int) int {
+	bits := rapid.SliceOfN(rapid.Bool(), 10, 10).Draw(t, label)
+	v := 0
+	for _, b := range bits {
+		v <<= 1
+		if b {
+			v |= 1
+		}
+	}
+	return v * n / 1024
+}
+
+// pct is true with probability p/100 and shrinks towards false.
+func pct(t *rapid.T, label string, p int) bool { return uni(t, label, 100) >= 100-p }
+
+func oneOf(t *rapid.T, label string, xs []string) string { return xs[uni(t, label, len(xs))] }
+
 var badKinds = []string{"start-fail", "start-fail", "start-fail", "create-fail", "retrieve-err", "bad-yaml", "unknown-key", "unknown-type", "undefined-ref"}
 
 func genAct(t *rapid.T, label string, kinds []string) Act {
-	a := Act{K: rapid.SampledFrom(kinds).Draw(t, label)}
+	a := Act{K: oneOf(t, label, kinds)}
 	switch a.K {
 	case "shutdown":
-		a.N = rapid.IntRange(1, 4).Draw(t, label+"-n")
+		a.N = 1 + uni(t, label+"-n", 4)
 	case "fatal":
-		a.N = rapid.IntRange(0, 4).Draw(t, label+"-c")
+		a.N = uni(t, label+"-c", 5)
 	}
 	return a
 }
@@ -128,7 +148,7 @@ var (
 )
 
 func genActs(t *rapid.T, label string, kinds []string, max int) []Act {
-	n := rapid.IntRange(0, max).Draw(t, label+"-len")
+	n := uni(t, label+"-len", max+1)
 	var out []Act
 	for i := 0; i < n; i++ {
 		out = append(out, genAct(t, fmt.Sprintf("%s%d", label, i), kinds))
@@ -139,25 +159,25 @@ func genActs(t *rapid.T, label string, kinds []string, max int) []Act {
 func genGen(t *rapid.T, i, total int) Gen {
 	lb := func(s string) string { return fmt.Sprintf("g%d-%s", i, s) }
 	g := Gen{
-		NRecv: rapid.IntRange(1, 2).Draw(t, lb("nrecv")),
-		NExp:  rapid.IntRange(1, 2).Draw(t, lb("nexp")),
+		NRecv: 1 + uni(t, lb("nrecv"), 2),
+		NExp:  1 + uni(t, lb("nexp"), 2),
 		Proc:  rapid.Bool().Draw(t, lb("proc")),
 		Ext:   rapid.Bool().Draw(t, lb("ext")),
 		Kind:  "good", ShutFail: -1, PauseStart: -1, PauseShut: -1,
 	}
-	badPct := 12
+	badPct := 7
 	if i > 0 {
-		badPct = 35
+		badPct = 30
 	}
-	if rapid.IntRange(0, 99).Draw(t, lb("bad")) < badPct {
-		g.Kind = rapid.SampledFrom(badKinds).Draw(t, lb("kind"))
-		g.Comp = rapid.IntRange(0, 5).Draw(t, lb("comp"))
+	if pct(t, lb("bad"), badPct) {
+		g.Kind = oneOf(t, lb("kind"), badKinds)
+		g.Comp = uni(t, lb("comp"), 6)
 	}
-	if rapid.IntRange(0, 99).Draw(t, lb("sf")) < 15 {
-		g.ShutFail = rapid.IntRange(0, 5).Draw(t, lb("shutfail"))
+	if pct(t, lb("sf"), 12) {
+		g.ShutFail = uni(t, lb("shutfail"), 6)
 	}
-	if rapid.IntRange(0, 99).Draw(t, lb("ps")) < 45 {
-		g.PauseStart = rapid.IntRange(0, 5).Draw(t, lb("pause-start"))
+	if pct(t, lb("ps"), 45) {
+		g.PauseStart = uni(t, lb("pause-start"), 6)
 		kinds := pauseKinds
 		if i == 0 {
 			kinds = noSigKinds // Run has not registered its signal handlers before the first Running
@@ -165,7 +185,7 @@ func genGen(t *rapid.T, i, total int) Gen {
 		g.AtStart = genActs(t, lb("at-start"), kinds, 2)
 	}
 	// a generation that is followed by another scripted one should usually be left by a reload
-	if i < total-1 && rapid.IntRange(0, 99).Draw(t, lb("fwd")) < 85 {
+	if i < total-1 && pct(t, lb("fwd"), 88) {
 		g.AtRunning = append(g.AtRunning, genAct(t, lb("trigger"), []string{"change", "change", "sighup"}))
 		g.AtRunning = append(g.AtRunning, genActs(t, lb("at-running"), runningKinds, 2)...)
 		if len(g.AtRunning) > 1 && rapid.Bool().Draw(t, lb("swap")) {
@@ -174,8 +194,8 @@ func genGen(t *rapid.T, i, total int) Gen {
 	} else {
 		g.AtRunning = genActs(t, lb("at-running"), runningKinds, 3)
 	}
-	if rapid.IntRange(0, 99).Draw(t, lb("pd")) < 45 {
-		g.PauseShut = rapid.IntRange(0, 5).Draw(t, lb("pause-shut"))
+	if pct(t, lb("pd"), 45) {
+		g.PauseShut = uni(t, lb("pause-shut"), 6)
 		g.AtShut = genActs(t, lb("at-shut"), pauseKinds, 2)
 	}
 	return g
@@ -186,16 +206,16 @@ func genGen(t *rapid.T, i, total int) Gen {
 // (they are exercised by the probe check in a child process).
 func gen(t *rapid.T) Script {
 	var s Script
-	n := rapid.IntRange(1, 4).Draw(t, "gens")
+	n := 1 + uni(t, "gens", 4)
 	for i := 0; i < n; i++ {
 		s.Gens = append(s.Gens, genGen(t, i, n))
 	}
-	if rapid.IntRange(0, 99).Draw(t, "pre") < 6 {
-		s.Pre = rapid.IntRange(1, 2).Draw(t, "pre-n")
+	if pct(t, "pre", 4) {
+		s.Pre = 1 + uni(t, "pre-n", 2)
 	}
 	s.Final = genAct(t, "final", finalKinds)
-	s.Post = rapid.IntRange(0, 3).Draw(t, "post")
-	if rapid.IntRange(0, 99).Draw(t, "risky") < 3 {
+	s.Post = uni(t, "post", 4)
+	if pct(t, "risky", 3) {
 		plantRisk(t, &s)
 	}
 	return s
@@ -203,21 +223,21 @@ func gen(t *rapid.T) Script {
 
 // plantRisk turns s into a script with a FatalError report outside Run's select loop.
 func plantRisk(t *rapid.T, s *Script) {
-	i := rapid.IntRange(0, len(s.Gens)-1).Draw(t, "risk-gen")
+	i := uni(t, "risk-gen", len(s.Gens))
 	g := &s.Gens[i]
-	switch rapid.IntRange(0, 3).Draw(t, "risk-kind") {
+	switch uni(t, "risk-kind", 4) {
 	case 0:
-		g.FatalSync, g.FatalComp = "start", rapid.IntRange(0, 4).Draw(t, "risk-comp")
+		g.FatalSync, g.FatalComp = "start", uni(t, "risk-comp", 5)
 	case 1:
-		g.FatalSync, g.FatalComp = "shutdown", rapid.IntRange(0, 4).Draw(t, "risk-comp")
+		g.FatalSync, g.FatalComp = "shutdown", uni(t, "risk-comp", 5)
 	case 2:
 		if g.PauseStart < 0 {
-			g.PauseStart = rapid.IntRange(0, 5).Draw(t, "risk-pause")
+			g.PauseStart = uni(t, "risk-pause", 6)
 		}
 		g.AtStart = append(g.AtStart, Act{K: "fatal", N: -1})
 	default:
 		if g.PauseShut < 0 {
-			g.PauseShut = rapid.IntRange(0, 5).Draw(t, "risk-pause")
+			g.PauseShut = uni(t, "risk-pause", 6)
 		}
 		g.AtShut = append(g.AtShut, Act{K: "fatal", N: -1})
 	}
@@ -744,7 +764,7 @@ func (d *driver) oracle() *vt.Finding {
 				f.up = false
 			}
 		}
-		if spec.canComeUp() && !f.up && !d.cancelled {
+		if spec.canComeUp() && !f.up {
 			return vt.Failf("bringup/good-config-not-started", "generation %d has a valid configuration and no failing component, but not every component was created and started%s", g, fmtLog(ev, -1))
 		}
 		if g < last && !f.up {
@@ -934,7 +954,7 @@ func run(c *vt.C) func(Script) (bool, string, *vt.Finding) {
 		d := &driver{c: c, w: w, s: &s, col: col, firedRunning: map[int]bool{}, stopKinds: map[string]bool{}}
 		limit := inProcessLimit
 		if vt.IsChild() {
-			limit = 4 * time.Second
+			limit = 3 * time.Second
 		}
 		var finished bool
 		var stuck string
